@@ -234,16 +234,17 @@ func (h *HTTP) Start() {
 			h.Teamserver.EventAppend(pk)
 			h.Teamserver.EventBroadcast("", pk)
 
+			// set before the goroutine starts: Stop() may be called right away
+			h.Server = &http.Server{
+				Addr:    common.GetInterfaceIpv4Addr(h.Config.HostBind) + ":" + h.Config.PortBind,
+				Handler: h.GinEngine,
+			}
+
 			go func() {
 				var (
 					CertPath = h.TLS.CertPath
 					KeyPath  = h.TLS.KeyPath
 				)
-
-				h.Server = &http.Server{
-					Addr:    common.GetInterfaceIpv4Addr(h.Config.HostBind) + ":" + h.Config.PortBind,
-					Handler: h.GinEngine,
-				}
 
 				if h.Config.Cert.Cert != "" && h.Config.Cert.Key != "" {
 					CertPath = h.Config.Cert.Cert
@@ -271,17 +272,22 @@ func (h *HTTP) Start() {
 		h.Teamserver.EventAppend(pk)
 		h.Teamserver.EventBroadcast("", pk)
 
-		go func() {
-			h.Server = &http.Server{
-				Addr:    common.GetInterfaceIpv4Addr(h.Config.HostBind) + ":" + h.Config.PortBind,
-				Handler: h.GinEngine,
-			}
+		// set before the goroutine starts: Stop() may be called right away
+		h.Server = &http.Server{
+			Addr:    common.GetInterfaceIpv4Addr(h.Config.HostBind) + ":" + h.Config.PortBind,
+			Handler: h.GinEngine,
+		}
 
+		go func() {
 			err := h.Server.ListenAndServe()
 			if err != nil {
-				logger.Error("Couldn't start HTTP handler: " + err.Error())
-				h.Active = false
-				h.Teamserver.EventListenerError(h.Config.Name, err)
+				if err == http.ErrServerClosed {
+					h.Active = false
+				} else {
+					logger.Error("Couldn't start HTTP handler: " + err.Error())
+					h.Active = false
+					h.Teamserver.EventListenerError(h.Config.Name, err)
+				}
 			}
 		}()
 	}
